@@ -1021,11 +1021,15 @@ fn gen_path(r: &mut Rng, ox: i64, oy: i64, bad: bool) -> String {
         toks.push(letter);
         let npts = [0, 1, 1, 2, 2, 2, 3, 3, 4, 6][r.below(10)];
         let shape = r.below(6);
+        // collinear runs at every magnitude: beyond ~4096 units the cross-product terms exceed
+        // 2^24 and are no longer exact in f32, which is where rounding order starts to matter
+        let step: i64 = *r.pick(&[10i64, 10, 1000, 4097, 4099, 12345, 30001, 43690]);
+        let slope: i64 = *r.pick(&[1i64, 1, 2, -1, 3]);
         let mut pts: Vec<String> = vec![];
         for k in 0..npts {
             let p = match shape {
                 // collinear run
-                0 => format!("{}:{}", ox + 10 * (k as i64 + 1), oy + 10 * (k as i64 + 1)),
+                0 => format!("{}:{}", ox + step * (k as i64 + 1), oy + slope * step * (k as i64 + 1)),
                 // horizontal run
                 1 => format!("{}:{}", ox + 25 * (k as i64 + 1), oy),
                 _ => gen_point(r, ox, oy, false),
